@@ -2623,6 +2623,13 @@ static iwrc _jbl_target_apply_patch(struct jbl_node *target, const struct jbl_pa
       }
     }
     if (parent->type == JBV_ARRAY) {
+      if (op == JBP_INCREMENT) { // increment the addressed element, as for object members; never insert the operand
+        struct jbl_node *child = _jbl_node_find(parent, path, path->cnt - 1, path->cnt);
+        if (!child) {
+          return JBL_ERROR_PATCH_TARGET_INVALID;
+        }
+        return _jbl_increment_node_data(child, value);
+      }
       if ((path->n[lastidx][0] == '-') && (path->n[lastidx][1] == '\0')) {
         if (op == JBP_SWAP) {
           value = _jbl_node_detach(target, ex->from);
